@@ -801,9 +801,11 @@ func (c *VirtualTable) Begin(ctx context.Context) error {
 
 // InTransaction reports whether a transaction that wrote to the table is
 // still open: the tree then holds uncommitted changes, which s3db_refresh
-// would drop and s3db_vacuum would publish. (A read-only table never has any.)
+// would drop and s3db_vacuum would publish. (A read-only table never has any;
+// a table created inside the running transaction gets no Begin call, but its
+// tree is dirty as soon as it is written.)
 func (c *VirtualTable) InTransaction() bool {
-	return c.txStart != nil && !c.S3Options.ReadOnly
+	return !c.S3Options.ReadOnly && (c.txStart != nil || c.Tree.Root.IsDirty())
 }
 
 func (c *VirtualTable) Commit(ctx context.Context) error {
